@@ -188,6 +188,20 @@ class ArrayUnionMatcher(CombinationMatcher):
                 % (self.__class__.__name__, self._submatchers, self._boost,
                    self._scored, self._partsize))
 
+    def copy(self):
+        m = self.__class__.__new__(self.__class__)
+        CombinationMatcher.__init__(m, [subm.copy() for subm
+                                        in self._submatchers],
+                                    boost=self._boost)
+        m._scored = self._scored
+        m._doccount = self._doccount
+        m._partsize = self._partsize
+        m._a = array("d", self._a)
+        m._docnum = self._docnum
+        m._offset = self._offset
+        m._limit = self._limit
+        return m
+
     def _min_id(self):
         active = [subm for subm in self._submatchers if subm.is_active()]
         if active:
